@@ -80,6 +80,19 @@ CLAIMED = {
         note='Trusted: Coq kernel, extraction, harness, hooks (steps/live/iterations counters and sort trace in shortest_path.rs/generic.rs). '
              'Per-step work (look-ahead scans) is not counted, as in the property statement. No axioms.',
         technique='Coq proof: counting invariant by induction over the planner loop, sort abstracted as an arbitrary function; exact counter correspondence via hooks'),
+    'C09': dict(
+        text='Theorem C09_full (Coq, axiom-free), for all 48 sizes and EVERY received byte word of the symbol\'s length: if the model of '
+             'decode_error returns Ok, the word left behind is a codeword of the interleaved Reed-Solomon code of Spec/RSCode.v and '
+             're-encoding its data part reproduces its EC part. Proof chain: decode_gen returns Ok only after an all-zero syndrome '
+             'evaluation of the block it returns (repaired code); primitive_element_evaluation is proved to compute c(alpha^j) by loop '
+             'invariant; blocks are independent (list-index invariant of the strided loop); a polynomial of degree < k with k distinct roots is '
+             'zero (synthetic division, no determinants), hence the EC part is determined by the data part (uniqueness), combined with C06. '
+             'The locator algorithm (Levinson-Durbin) plays no role. Tie: the decoder model is compared with decode_error on words at every '
+             'distance from a codeword and random words (results and error variants); every Ok answer of the implementation is re-checked with '
+             'independent syndromes. The defect found on the pinned tree was repaired (fix: commit, known_findings.json).',
+        design_ref='DESIGN.md 6/C09',
+        note='Trusted: Coq kernel, translator (block set-up), extraction, harness; Spec/GF256.v, Spec/RSCode.v. No axioms.',
+        technique='Coq proof: loop invariants + polynomial-roots uniqueness over GF(256) with ring reasoning; differential correspondence of the decoder model'),
 }
 
 PENDING_REASON = 'check not built yet in this round (work proceeds in the order of DESIGN.md section 11); not claimed until its quick command exists'
